@@ -135,7 +135,7 @@ def run_tlc(module, cfg=None, *, workers=None, env=None, timeout=900, simulate=N
         jopts.append('-Dtlc2.tool.queue.IStateQueue=StateDeque')
     cmd = ['java'] + jopts + ['-cp', JAR, 'tlc2.TLC', '-metadir', meta, '-noGenerateSpecTE',
                               '-config', cfg]
-    w = workers if workers is not None else 'auto'
+    w = workers if workers is not None else os.environ.get('VERIF_TLC_WORKERS', 'auto')
     cmd += ['-workers', str(w)]
     if simulate:
         cmd += ['-simulate', simulate]
@@ -380,7 +380,7 @@ class Check:
 def pool_map(fn, items, procs=None, chunksize=None):
     """map in fresh worker processes (spawned by fork before frappy state is touched)"""
     import multiprocessing as mp
-    procs = procs or min(NCPU, 16)
+    procs = procs or int(os.environ.get('VERIF_PROCS', min(NCPU, 16)))
     if len(items) <= 1 or procs == 1:
         return [fn(x) for x in items]
     ctx = mp.get_context('fork')
